@@ -122,11 +122,12 @@ def execute(scn, keep_log=False, hook=None):
     def submit(m):
         st = w.stacks[m['stack']]
         data = payload(m['fill'], m['len'])
-        pre = m.get('pre') if sim.current is None and not held[0] else None
+        pre = m.get('pre') if sim.current is None and not held else None
         if pre:
-            # the application thread is parked at its k-th source line inside send_pgn; job threads and reception run on, further
-            # application-level submissions (nested, from the acknowledgement callback) wait until this call has returned
-            held[0] += 1
+            # the application thread is parked at its k-th source line inside send_pgn; job threads and reception run on, and with them
+            # the submissions made from their callbacks (nested in a transmission, from the acknowledgement callback) - a second thread
+            # inside send_pgn, for another (SA,DA) pair; submissions for the pair of the parked call wait until it has returned
+            held.append(pair_key(m))
         try:
             buf = bufs.setdefault((m['fill'], m['len']), list(data)) if m.get('share') else list(data)
             if m.get('share'):
@@ -134,7 +135,7 @@ def execute(scn, keep_log=False, hook=None):
             ok, tr = call_preempted(sim, (lambda: st.cas[m['ca']].send_pgn(m['dp'], m['pf'], m['ps'], m['prio'], buf)), pre)
         finally:
             if pre:
-                held[0] -= 1
+                held.pop()
         if tr is not None and tr.fired:
             stats['preempted_calls'] += 1
         if pre:
@@ -161,7 +162,10 @@ def execute(scn, keep_log=False, hook=None):
     base = sim.now
     txcount = {}
     nest = [0]
-    held = [0]
+    held = []       # (stack, CA, destination) of the application call that is parked inside send_pgn right now
+
+    def pair_key(m):
+        return (m['stack'], m['ca'], common.msg_dest(m))
     deferred = []
     bufs = {}
     pending_on_tx = [m for m in scn['msgs'] if m.get('on_tx') is not None]
@@ -169,10 +173,10 @@ def execute(scn, keep_log=False, hook=None):
     def on_tx(fr):
         k = txcount.get(fr.src, 0)
         txcount[fr.src] = k + 1
-        if nest[0] or held[0]:
+        if nest[0]:
             return
         for m in list(pending_on_tx):
-            if m['stack'] == fr.src and m['on_tx'] == k:
+            if m['stack'] == fr.src and m['on_tx'] == k and pair_key(m) not in held:
                 pending_on_tx.remove(m)
                 nest[0] += 1
                 try:
@@ -192,7 +196,7 @@ def execute(scn, keep_log=False, hook=None):
             if stack == src['stack'] and lid == 'ca%d' % src['ca'] and sa == src['ps'] and pgn == common.rc.sae_pgn(src['dp'], src['pf'], src['ps']):
                 pending_on_ack.remove(m)
                 stats['submitted_from_ack_callback'] += 1
-                if held[0]:
+                if pair_key(m) in held:
                     deferred.append(lambda m=m: submit(m))
                 else:
                     submit(m)
